@@ -41,7 +41,7 @@ Step(e) ==
       [] e.op = "Index" -> IndexT(e.args[1], e.args[2])
       [] e.op = "Stride" -> StrideT(e.args[1], e.args[2])
       [] e.op = "Rc" -> RcT
-      [] e.op = "TakePositions" -> TakePositionsT(e.args[1], e.args[2])
+      [] e.op = "TakePositions" -> TakePositionsT(e.args[1], e.args[2], e.args[3])
       [] e.op = "TakeSeqs" ->
             /\ HasRows(e.args[1])
             /\ IF e.args[2] THEN TakeSeqsNegT({RowIdx(e.args[1][k]) : k \in 1..Len(e.args[1])})
